@@ -135,6 +135,34 @@ def make_complex(rng, nA=None, nB=None, chains=('A', 'B'), hydrogens=None, numbe
     return Complex(residues)
 
 
+def make_long_complex(rng, nA=None, nB=None, chains=('A', 'B')):
+    """two chains whose residues are LONG (a straight side chain of 6-11 heavy atoms, nucleotide- or lipid-like, reaching 8-15 A
+    from the backbone) and touch the other chain TIP TO TIP: the residue centres are 15-28 A apart while the closest atoms are
+    3-5 A apart.  (Round-4 seed C08-r4m2: a rejection test on residue centres with a maximal residue radius of 5 A is right for the
+    twenty amino acids only; the property quantifies over any geometry.)"""
+    nA = nA if nA is not None else rng.randint(2, 5)
+    nB = nB if nB is not None else rng.randint(2, 5)
+    lenA, lenB = rng.randint(6, 11), rng.randint(6, 11)
+    tip = rng.choice([3.1, 3.6, 4.2, 4.8])
+    gap = 1.4 * (lenA + lenB) + 2.6 + tip           # backbone-to-backbone distance along y
+    residues = []
+    for ci, (chain, n, ln) in enumerate(zip(chains, (nA, nB), (lenA, lenB))):
+        sdir = 1.0 if ci == 0 else -1.0
+        yoff = 0.0 if ci == 0 else gap
+        for k in range(n):
+            bx = 7.5 * k + (0.0 if ci == 0 else rng.choice([0.0, 0.6, -0.6]))
+            bz = rng.choice([0.0, 0.4, -0.4])
+            atoms = []
+            d = [(0.0, 0.0, 0.0), (1.2, 0.0, 0.1), (2.3, 0.0, 0.9), (2.5, 0.0, -0.7)]
+            for (nm, el), dv in zip(BACKBONE, d):
+                atoms.append((nm, el, (round(bx + dv[0], 3), round(yoff - sdir * abs(dv[1]), 3), round(bz + dv[2], 3))))
+            for j in range(ln):
+                atoms.append(('C%02d' % (j + 1), 'C', (round(bx + 1.2, 3), round(yoff + sdir * (1.3 + 1.4 * j), 3), round(bz, 3))))
+            residues.append({'chain': chain, 'resSeq': k + 1 if ci == 0 else 101 + k, 'resName': rng.choice(['DG', 'DA', 'LIP', 'TRP']),
+                             'atoms': atoms})
+    return Complex(residues)
+
+
 def jitter(rng, cx, sigma):
     out = cx.copy()
     for r in out.residues:
